@@ -79,6 +79,71 @@ def correspondence(ctx):
         _immutability(ctx, name, pool, rng)
         _non_ascii_digits(ctx, name, pool, rng)
         _long_digit_runs(ctx, name, pool, rng)
+    _pickle_across_processes(ctx)
+
+
+def _pickle_across_processes(ctx):
+    """versions, constraints and ranges hashed and pickled in ANOTHER interpreter (another hash seed), unpickled here:
+    each equals a freshly built one and has the same hash (a hash remembered on the object does not travel)"""
+    import os
+    import pickle
+    import subprocess
+    import sys
+    import tempfile
+    from univers.version_range import VersionRange
+    items = []
+    for name in A.ALL:
+        rng = ctx.rng("c12-pickle", name)
+        for s, _v in A.valid_pool(name, rng, 4):
+            items.append((name, s))
+    code = (
+        "import sys, pickle\n"
+        "sys.path.insert(0, %r)\n"
+        "from harness import schemes as S\n"
+        "from univers.version_constraint import VersionConstraint\n"
+        "out = []\n"
+        "for name, s in %r:\n"
+        "    try:\n"
+        "        v = S.vclass(name)(s)\n"
+        "        c = VersionConstraint(comparator='>=', version=v)\n"
+        "        r = (S.rclass(name) or None)\n"
+        "        r = r(constraints=[c]) if r else None\n"
+        "        for x in (v, c, r):\n"
+        "            if x is not None:\n"
+        "                hash(x); str(x)\n"
+        "        out.append((name, s, pickle.dumps((v, c, r))))\n"
+        "    except Exception:\n"
+        "        pass\n"
+        "pickle.dump(out, open(sys.argv[1], 'wb'))\n" % (str(common.VERIF), items))
+    with tempfile.TemporaryDirectory() as tmp:
+        path = os.path.join(tmp, "p.bin")
+        env = dict(os.environ, PYTHONHASHSEED="12345", PYTHONPATH=str(common.SRC))
+        p = subprocess.run([sys.executable, "-c", code, path], env=env, stdout=subprocess.PIPE, stderr=subprocess.PIPE, text=True, timeout=600)
+        if p.returncode != 0 or not os.path.exists(path):
+            ctx.stream("pickle")["skipped"] = "child failed: " + p.stderr[-300:]
+            return
+        data = pickle.load(open(path, "rb"))
+    for name, s, blob in data:
+        stream = "pickle:" + name
+        ctx.count(stream, key=s, nontrivial=True)
+        try:
+            v, c, r = pickle.loads(blob)
+            fv = S.vclass(name)(s)
+            fc = VersionConstraint(comparator=">=", version=fv)
+            fr = S.rclass(name)(constraints=[fc]) if S.rclass(name) else None
+            for label, a, b in (("version", v, fv), ("constraint", c, fc), ("range", r, fr)):
+                if a is None:
+                    continue
+                if a == b and (hash(a) != hash(b) or len({a, b}) != 1):
+                    ctx.disagree(stream, "%s %s" % (label, s), "equal to a fresh one, hashes differ", "-", True,
+                                 {"scheme": name, "text": s, "object": label,
+                                  "clause": "a %s hashed and pickled in another interpreter equals a fresh one but has another hash" % label},
+                                 region=_region(name), spec="== implies equal hash")
+                    break
+        except TypeError:
+            pass            # unhashable: reported elsewhere
+        except Exception as e:  # noqa: BLE001
+            ctx.disagree(stream, "unpickle %s" % s, "raises %s" % type(e).__name__, "-", False, {"scheme": name, "text": s})
 
 
 def _int_limit_region(name, text, i):
